@@ -206,6 +206,14 @@ fn check_case(case: &Value, stats: &mut Stats) -> CheckResult {
     }
 }
 
+fn pair_check(case: &Value, stats: &mut Stats) -> CheckResult {
+    run_pair(case, stats, check_case)
+}
+
+fn pair_driver(ctx: &RunCtx, stats: &mut Stats, rep: &mut Reporter) {
+    half_key_driver("C06", pair_check, ctx, stats, rep)
+}
+
 pub fn property() -> Property {
     Property {
         id: "C06",
@@ -232,6 +240,15 @@ pub fn property() -> Property {
                 check: check_case,
                 configs: Configs::Both,
                 required: &["castling_candidate_rejected", "ep_candidate", "promotion_candidate", "double_step_blocked", "black_to_move"],
+                regressions: &[],
+                exhaustive: false,
+            },
+            SubCheck {
+                name: "half_key_pairs",
+                driver: Driver::Custom { run: pair_driver },
+                check: pair_check,
+                configs: Configs::ReleaseOnly,
+                required: &["equal_low_half_of_the_key", "equal_high_half_of_the_key"],
                 regressions: &[],
                 exhaustive: false,
             },
